@@ -15,7 +15,7 @@ use std::sync::atomic::{AtomicBool, Ordering};
 use std::sync::Arc;
 use std::time::Duration;
 
-const NKINDS: u64 = 22;
+const NKINDS: u64 = 28;
 
 /// Run `n` random calls on `ch`; returns (calls made, sync calls, errors).
 pub fn worker(ch: Channel, n: usize, mut r: Rng, h: Handle, prefix: String) -> (u64, u64, Vec<String>, Vec<u64>) {
@@ -178,7 +178,26 @@ pub fn worker(ch: Channel, n: usize, mut r: Rng, h: Handle, prefix: String) -> (
             18 => nowait!("queue_declare_nowait", ch.queue_declare_nowait(name, QueueDeclareOptions::default()).map(|_| ())),
             19 => nowait!("queue_purge_nowait", ch.queue_purge_nowait(name)),
             20 => nowait!("exchange_declare_nowait", ch.exchange_declare_nowait(ExchangeType::Topic, name, ExchangeDeclareOptions::default()).map(|_| ())),
-            _ => nowait!("queue_bind_nowait", ch.queue_bind_nowait(name, "x", "k", FieldTable::new())),
+            21 => nowait!("queue_bind_nowait", ch.queue_bind_nowait(name, "x", "k", FieldTable::new())),
+            22 => nowait!("queue_delete_nowait", ch.queue_delete_nowait(name, QueueDeleteOptions::default())),
+            23 => nowait!("exchange_delete_nowait", ch.exchange_delete_nowait(name, false)),
+            24 => nowait!("exchange_bind_nowait", ch.exchange_bind_nowait(name, "s", "k", FieldTable::new())),
+            25 => nowait!("exchange_unbind_nowait", ch.exchange_unbind_nowait(name, "s", "k", FieldTable::new())),
+            26 => nowait!("enable_publisher_confirms_nowait", ch.enable_publisher_confirms_nowait()),
+            _ => {
+                // the Queue / Exchange handle variants go through the same nowait paths
+                match ch.queue_declare_nowait(name.clone(), QueueDeclareOptions::default()) {
+                    Ok(q) => {
+                        nowait!("Queue::purge_nowait", q.purge_nowait());
+                        nowait!("Queue::delete_nowait", q.delete_nowait(QueueDeleteOptions::default()));
+                    }
+                    Err(e) => errs.push(format!("ch{} queue_declare_nowait: {}", id, ek(&e))),
+                }
+                match ch.exchange_declare_nowait(ExchangeType::Direct, name, ExchangeDeclareOptions::default()) {
+                    Ok(x) => nowait!("Exchange::delete_nowait", x.delete_nowait(true)),
+                    Err(e) => errs.push(format!("ch{} exchange_declare_nowait: {}", id, ek(&e))),
+                }
+            }
         }
     }
     if let Err(e) = ch.close() {
